@@ -179,6 +179,12 @@ source scan (regenerated on every run) finds no `danger_accept_invalid_certs`,
 theorem no_danger_calls : Gen.dangerCalls = [] ∧ Gen.builtinRootsDisabled = false := by
   decide
 
+/-- acmed/src adds trust anchors (or touches the TLS back end at all) in at most ONE place — the loop over
+the endpoint's configured root files that `Model/Trust.client` transliterates (today in
+`http::get_client`; the name is not part of the claim) — source scan, regenerated on every run. -/
+theorem roots_added_in_one_place : Gen.rootAdders.length ≤ 1 := by
+  decide
+
 /-- The model's prediction for a grid scenario always satisfies the judge: with the scenario's
 ground truth as `validates`, whatever the root files and the (non-empty) call sequence. -/
 theorem model_satisfies_spec (chainValid : Bool) (files : List (Path × RootFile))
